@@ -22,7 +22,9 @@ ASSUMPTIONS = ['tag names avoid the drawing letters _ o O v V x X (`{big_c}` is 
                'the css is compared modulo white space; characters XML cannot represent are dropped (C02)']
 FLOORS = {'quick': {'legend_documents': 2000, 'tag_placements': 1000, 'nesting_depth_ge2': 200},
           'thorough': {'legend_documents': 40000, 'tag_placements': 20000, 'nesting_depth_ge2': 4000}}
-NAMES = ['a', 'b1', 'red', 'bigc', 'w', 'k9', 'q7z', 'abc', 'A', 'Zz', 'n0', 'thick']
+NAMES = ['a', 'b1', 'red', 'bigc', 'w', 'k9', 'q7z', 'abc', 'A', 'Zz', 'n0', 'thick',
+         # names svgbob's own style sheet uses (`{filled}` in a box is how a user fills it): a tag may name them too
+         'filled', 'broken', 'solid', 'nofill', 'dashed', 'svgbob']
 IDENTS = ['a', 'b1', 'big_circle', '_x', 'red', 'A9_', 'q', 'solid2', 'nofill_', 'Z']
 DECL_CHARS = "abc:; -#0123456789,.()%'\"<>&!*/\n\t=@[]|\\é日"
 
@@ -107,21 +109,26 @@ def check_case(ctx, case):
                 [show_el(e) for e in ua[:3]], [show_el(e) for e in ub[:3]])
     shapes = case.get('shapes')
     if shapes is not None:
+        # the names of the tags must be in the class attribute; whatever else the shape carries must be svgbob's own
+        # classes (a tag may name one of those too: `{filled}`, `{broken}`)
+        OWN = {'rect': {'solid', 'nofill', 'broken'}, 'circle': {'nofill', 'filled'}}
         got = []
         for e, ing in sc.flat():
             if e[0] == 'rect':
-                got.append(('rect', (e[2] / s - F(1, 2), e[3] / (2 * s) - F(1, 2), e[4] / s, e[5] / (2 * s)), set(e[1]) - {'solid', 'nofill', 'broken'}))
+                got.append(('rect', (e[2] / s - F(1, 2), e[3] / (2 * s) - F(1, 2), e[4] / s, e[5] / (2 * s)), set(e[1])))
             elif e[0] == 'circle':
-                got.append(('circle', None, set(e[1]) - {'nofill', 'filled'}))
+                got.append(('circle', None, set(e[1])))
         want = []
         for sh in shapes:
             if sh[0] == 'rect':
                 want.append(('rect', tuple(F(v) for v in sh[1]), set(sh[2])))
             else:
                 want.append(('circle', None, set(sh[2])))
-        key = lambda t: (t[0], repr(t[1]), sorted(t[2]))
-        if sorted(got, key=key) != sorted(want, key=key):
-            return 'shape classes: got %s, expected %s' % (sorted(got, key=key), sorted(want, key=key))
+        key = lambda t: (t[0], repr(t[1]), sorted(t[2] - OWN[t[0]]))
+        gs, ws = sorted(got, key=key), sorted(want, key=key)
+        shown = lambda l: [(t[0], t[1], sorted(t[2] - OWN[t[0]])) for t in l]
+        if len(gs) != len(ws) or any(g[0] != w[0] or g[1] != w[1] or not (w[2] <= g[2]) or (g[2] - w[2]) - OWN[g[0]] for g, w in zip(gs, ws)):
+            return 'shape classes: got %s, expected %s' % ([(t[0], t[1], sorted(t[2])) for t in gs], shown(ws))
         texts = [e[4] for e, _ in sc.flat() if e[0] == 'text']
         for t in case.get('absent', []):
             if any(t in x for x in texts):
